@@ -17,11 +17,16 @@ GRAPHS = {
     "join": [("A", ["C"], {}), ("B", ["C"], {}), ("C", [], {})],
     "diamond": [("A", ["B", "C"], {}), ("B", ["D"], {}), ("C", ["D"], {}),
                 ("D", [], {})],
+    # a join whose parents sit at different depths, with a tail: estimates for the tail
+    # depend on the *later* of the two routes into the join
+    "skewjoin": [("A", ["C"], {}), ("P", ["B"], {}), ("B", ["C"], {}), ("C", ["G"], {}),
+                 ("G", [], {})],
     "cond": [("Q", ["X", "Y"], {"conditional": True}),
              ("X", ["J"], {"probability": 0.25}), ("Y", ["J"], {"probability": 0.75}),
              ("J", ["K"], {"terminal": True}), ("K", [], {})],
 }
-RUNTIME = {"A": 2, "B": 1, "C": 2, "D": 1, "Q": 1, "X": 2, "Y": 1, "J": 1, "K": 2}
+RUNTIME = {"A": 2, "B": 1, "C": 2, "D": 1, "Q": 1, "X": 2, "Y": 1, "J": 1, "K": 2,
+           "P": 4, "G": 1}
 LOOKAHEADS = (0, 1, 3, 50)
 MAX_TIME = 4
 
@@ -397,6 +402,12 @@ def items(tier):
         for f in firsts:
             # second-level split on the follow-up op keeps the items even
             it.append(("bfs", gname, [list(f)], depth, cap))
+        # start from a non-initial state too: every source released, placed for now
+        # and running (what a greedy run looks like after its first invocation); the
+        # search continues from there to the same relative depth
+        pre = [["rel", s_] for s_ in srcs] + [["sched", s_, 0] for s_ in srcs] + \
+              [["start", s_] for s_ in srcs]
+        it.append(("bfs", gname, pre, len(pre) + depth - 2, cap * 2))
     return it
 
 
@@ -406,8 +417,10 @@ def main(tier, seed):
 
     e2 = run_generic(
         "C18", tier, seed, items(tier), job, extra=(tier,), engine="e2", finish=False,
-        rule="BFS over task-state combinations of 5 graphs (chain, fork, join, diamond, "
-             "conditional+join) reached by real transitions, time 0..4+runtimes; in each "
+        rule="BFS over task-state combinations of 6 graphs (chain, fork, join, diamond, "
+             "skewed join with a tail, conditional+join) reached by real transitions "
+             "from the initial state and from the state 'all sources running', time "
+             "0..4+runtimes; in each "
              "state 5 branch policies (RANDOM under both answers) x retract x "
              "release_taskgraphs x lookahead {0,1,3,50} = 96 frontier queries judged",
         assumptions=["preemption offers are judged in E1 runs only (they need a live "
@@ -429,7 +442,7 @@ def replay(path):
         d = json.load(f)
     if d.get("engine") == "e1":
         return _replay_e1(path)
-    return generic_replay("C18", path, confirm_job, extra=("quick",))
+    return generic_replay("C18", path, confirm_job, extra=("quick",), item_job=job)
 
 
 def _replay_e1(path):
